@@ -595,7 +595,7 @@ class _WidgetRun:
             urwid.RadioButton(group, "r0"),
             urwid.RadioButton(group, "r1"),
             urwid.RadioButton(group, "r2"),
-            urwid.Button("ok"),
+            None,  # the Button is created in run(): its constructor connects handler 3 with user_data 0
             urwid.SimpleListWalker([urwid.Text("x")]),
             urwid.SimpleFocusListWalker([urwid.Text("y")]),
         ]
@@ -643,6 +643,10 @@ class _WidgetRun:
     def run(self) -> str:  # noqa: C901, PLR0912, PLR0915
         urwid = self.urwid
         handlers = [self.handler(i) for i in range(4)]
+        # Button(label, on_press, user_data): the deprecated positional user_arg, here a falsy value (the first button
+        # of `[Button(lbl, cb, i) for i, lbl in enumerate(...)]`); it is passed after the emitted arguments
+        self.widgets[5] = urwid.Button("ok", on_press=handlers[3], user_data=0)
+        self.conns.append([5, "click", 3, (), None, True, 0])
         for i, op in enumerate(self.scen["ops"]):
             k = op["op"]
             wi = op.get("w", 0) % len(self.widgets)
@@ -653,11 +657,11 @@ class _WidgetRun:
                     ua = tuple(op.get("ua", ()))
                     hid = op.get("h", 0) % len(handlers)
                     key = urwid.connect_signal(w, name, handlers[hid], user_args=list(ua)) if ua else urwid.connect_signal(w, name, handlers[hid])
-                    self.conns.append([wi, name, hid, ua, key, True])
+                    self.conns.append([wi, name, hid, ua, key, True, None])
                     self.log.add("conn", [wi, name, hid, list(ua)])
                     continue
                 if k == "disc":
-                    live = [c for c in self.conns if c[5]]
+                    live = [c for c in self.conns if c[5] and c[4] is not None]
                     if not live:
                         continue
                     c = live[op.get("c", 0) % len(live)]
@@ -670,7 +674,7 @@ class _WidgetRun:
                         else:
                             urwid.disconnect_signal(self.widgets[c[0]], c[1], handlers[c[2]])
                         # removes the first connection with these arguments
-                        first = next(x for x in self.conns if x[5] and x[:4] == c[:4])
+                        first = next(x for x in self.conns if x[5] and x[:4] == c[:4] and x[6] is None)
                         first[5] = False
                     self.log.add("disc", [c[0], c[1], c[2], bool(op.get("by_key"))])
                     continue
@@ -751,7 +755,8 @@ class _WidgetRun:
                 for c in self.conns:
                     if c[5] and c[0] == ewi and c[1] == name:
                         # (the list walkers are not widgets: they emit 'modified' without themselves as an argument)
-                        want.append((c[2], (*c[3], *args) if ewi >= 6 else (*c[3], self.widgets[ewi], *args)))
+                        tail = () if c[6] is None else (c[6],)
+                        want.append((c[2], (*c[3], *args, *tail) if ewi >= 6 else (*c[3], self.widgets[ewi], *args, *tail)))
             got = list(self.calls)
             self.log.add("calls", [[h, len(a_)] for h, a_ in got])
             if exp:
@@ -853,7 +858,8 @@ class SignalsEngine(Engine):
                 if rng.random() < 0.3:
                     op["uargs"] = [rng.randint(0, 3) for _ in range(rng.randint(1, 2))]
                 if rng.random() < 0.1:
-                    op["uarg"] = rng.randint(1, 3)
+                    # (the deprecated positional user_arg: absent only when it is None - 0, False and "" are values)
+                    op["uarg"] = rng.choice([1, 2, 3, 0, False, ""])
                 if rng.random() < 0.15:
                     op["token"] = False
                 if n_w and rng.random() < 0.2:
